@@ -78,6 +78,9 @@ impl MT296 {
             });
         }
 
+        // Reject content left after the last field of the message
+        verify_parser_complete(&parser)?;
+
         Ok(MT296 {
             field_20,
             field_21,
